@@ -51,6 +51,7 @@ struct Cfg {
     bool blocksonly;
     bool local;
     int depth; // messages explored for this configuration
+    const std::vector<std::string>* alpha; // message alphabet explored for this configuration
     std::string Label() const
     {
         return std::string("CFG:") + pk::ConnTypeName(type) + ":" + PERMS[perm].name + ":blocksonly=" + (blocksonly ? "1" : "0") + ":" + (local ? "local" : "remote");
@@ -80,8 +81,7 @@ struct World {
     std::vector<CAmount> val;
     std::map<std::string, pk::Msg> txmsg; // fixed tx messages
     std::map<std::string, CTransactionRef> txs;
-    std::vector<std::string> alphabet;
-    std::vector<Cfg> cfgs;
+    std::vector<Cfg> cfgs; // configurations of the running stage
     // current state
     const Cfg* cfg{nullptr};
     std::unique_ptr<pk::Net> net;
@@ -194,7 +194,7 @@ struct World {
         }
         if (sent >= cfg->depth) return ev;
         if (peer->disconnect_flag()) return ev; // the connection is gone
-        return alphabet;
+        return *cfg->alpha;
     }
 
     void Setup(const std::string& label)
@@ -203,9 +203,7 @@ struct World {
         if (!cfg) throw std::logic_error("C36: unknown configuration " + label);
         pk::NetOpts no;
         no.blocksonly = cfg->blocksonly;
-        double t0 = vx::elapsed();
         net = std::make_unique<pk::Net>(n, no);
-        if (getenv("C36_TIMING")) fprintf(stderr, "T net %.1fms\n", (vx::elapsed() - t0) * 1e3);
         if (cfg->type == ConnectionType::PRIVATE_BROADCAST) (void)net->peerman->InitiateTxBroadcastPrivate(txs["pb"]);
         pk::PeerSpec s;
         s.type = cfg->type;
@@ -214,7 +212,6 @@ struct World {
         // a feeler is disconnected by the node itself as soon as its version arrives: its messages can only come before that
         s.stage = cfg->type == ConnectionType::FEELER ? pk::Stage::PRE_VERSION : pk::Stage::COMPLETE;
         peer = &net->AddPeer(s);
-        if (getenv("C36_TIMING")) fprintf(stderr, "T net+peer %.1fms\n", (vx::elapsed() - t0) * 1e3);
         if (peer->disconnect_flag() || net->Discouraged(*peer))
             fs.report("C36-handshake-disconnect:" + label, "peer marked for disconnection or discouraged by the plain version handshake");
         if (s.stage == pk::Stage::COMPLETE && !peer->node->fSuccessfullyConnected)
@@ -347,43 +344,70 @@ int main(int argc, char** argv)
     w.Init(120);
     if (!CheckAlphabet(w)) return 2;
 
-    w.alphabet = {"tx:valid", "tx:script", "tx:amount", "tx:nonstd", "tx:orphan", "tx:conflict", "tx:oversized", "tx:stripped", "tx:undecodable",
-                  "block:mutated", "block:badconnect", "block:badpow", "block:valid", "headers:badpow", "headers:noncont", "cmpct:badconnect"};
-    if (big) for (const char* k : {"tx:lowfee", "tx:trailing", "tx:premature", "cmpct:badpow"}) w.alphabet.push_back(k);
+    // message alphabets
+    const std::vector<std::string> A_BASE = {"tx:valid", "tx:script", "tx:amount", "tx:nonstd", "tx:orphan", "tx:conflict", "tx:oversized", "tx:stripped", "tx:undecodable",
+                                             "block:mutated", "block:badconnect", "block:badpow", "block:valid", "headers:badpow", "headers:noncont", "cmpct:badconnect"};
+    std::vector<std::string> A_FULL = A_BASE;
+    for (const char* k : {"tx:lowfee", "tx:trailing", "tx:premature", "cmpct:badpow"}) A_FULL.push_back(k);
+    const std::vector<std::string> A_TXPROBE = {"tx:valid", "tx:amount", "block:badconnect"};       // what -blocksonly changes
+    const std::vector<std::string> A_PUNISH = {"block:badconnect", "headers:badpow", "tx:script"};  // what a local address changes
 
-    // configurations: every ConnectionType x permission set x -blocksonly x local/non-local address.
-    // quick: every configuration with every single message, and all 2-message sequences for the configurations with a
-    // non-local address and -blocksonly=0; thorough: all 2-message sequences everywhere, all 3-message sequences for
-    // permission sets {none, noban, relay}.
-    for (auto t : TYPES)
-        for (int p = 0; p < 5; p++)
-            for (int bo = 0; bo < 2; bo++)
-                for (int loc = 0; loc < 2; loc++) {
-                    Cfg c{t, p, bo == 1, loc == 1, 1};
-                    if (!big) c.depth = (!c.local && !c.blocksonly && (p == 0 || p == 1)) ? 2 : 1;
-                    else c.depth = (p <= 2 && !c.local) ? 3 : 2;
-                    w.cfgs.push_back(c);
-                }
-    if (const char* d = getenv("C36_DEPTH")) for (auto& c : w.cfgs) c.depth = atoi(d);
+    // The whole space is ConnectionType(7) x permission(5) x -blocksonly(2) x address(2) = 140 configurations.
+    // A stage is a set of configurations explored with one alphabet to one depth; every configuration is in exactly one stage.
+    struct Stage { std::string name; std::vector<Cfg> cfgs; };
+    std::vector<Stage> stages;
+    auto all = [&](auto pred, int depth, const std::vector<std::string>* alpha) {
+        std::vector<Cfg> v;
+        for (auto t : TYPES) for (int p = 0; p < 5; p++) for (int bo = 0; bo < 2; bo++) for (int loc = 0; loc < 2; loc++) {
+            Cfg c{t, p, bo == 1, loc == 1, depth, alpha};
+            if (pred(c)) v.push_back(c);
+        }
+        return v;
+    };
+    auto deep_quick = [](const Cfg& c) { return c.type == ConnectionType::INBOUND && c.perm == 0 && !c.blocksonly && !c.local; };
+    auto deep_big = [](const Cfg& c) {
+        return (c.type == ConnectionType::INBOUND || c.type == ConnectionType::OUTBOUND_FULL_RELAY || c.type == ConnectionType::MANUAL) && c.perm <= 1 && !c.blocksonly && !c.local;
+    };
+    if (!big) {
+        stages.push_back({"1 message, base alphabet, non-local address, -blocksonly=0 (all 7 types x 5 permission sets except the depth-2 one)",
+                          all([&](const Cfg& c) { return !c.local && !c.blocksonly && !deep_quick(c); }, 1, &A_BASE)});
+        stages.push_back({"1 message of {tx:valid, tx:amount, block:badconnect}, -blocksonly=1, both addresses",
+                          all([&](const Cfg& c) { return c.blocksonly; }, 1, &A_TXPROBE)});
+        stages.push_back({"1 message of {block:badconnect, headers:badpow, tx:script}, local address, -blocksonly=0",
+                          all([&](const Cfg& c) { return c.local && !c.blocksonly; }, 1, &A_PUNISH)});
+        stages.push_back({"all sequences of <= 2 messages, base alphabet, inbound peer without permissions", all(deep_quick, 2, &A_BASE)});
+    } else {
+        stages.push_back({"all sequences of <= 2 messages, full alphabet, every configuration except the depth-3 ones",
+                          all([&](const Cfg& c) { return !deep_big(c); }, 2, &A_FULL)});
+        stages.push_back({"all sequences of <= 3 messages, base alphabet, {inbound, outbound-full-relay, manual} x {none, noban}, non-local, -blocksonly=0",
+                          all(deep_big, 3, &A_BASE)});
+    }
+    if (const char* d = getenv("C36_DEPTH")) for (auto& st : stages) for (auto& c : st.cfgs) c.depth = atoi(d);
 
     if (ThreadCount() != 1) {
         printf("HARNESS-ERROR property=C36 process is not single-threaded (%d threads), fork exploration is unsound\n", ThreadCount());
         return 2;
     }
 
-    auto& fs = w.fs;
-    fs.max_depth = 1 + (big ? 3 : 2);
-    fs.split_depth = 1;
-    fs.table_bits = big ? 23 : 18;
-    fs.events = [&] { return w.Events(); };
-    fs.apply = [&](const std::string& e) { w.Apply(e); };
-    fs.key = [&] { return w.Key(); };
-    fs.on_worker_start = [&](unsigned wk) {
-        fs::path d = node.BlocksDir().parent_path() / ("w" + std::to_string(wk));
-        node.RepointBlocksDir(d);
+    auto arm = [&] {
+        w.fs = vx::ForkSim();
+        auto& fs = w.fs;
+        fs.max_depth = 4;
+        fs.split_depth = 0; // configurations are divided among the workers
+        fs.table_bits = big ? 21 : 16;
+        fs.events = [&] { return w.Events(); };
+        fs.apply = [&](const std::string& e) { w.Apply(e); };
+        fs.key = [&] { return w.Key(); };
+        fs.on_worker_start = [&](unsigned wk) {
+            fs::path d = node.BlocksDir().parent_path() / ("w" + std::to_string(wk));
+            node.RepointBlocksDir(d);
+        };
     };
 
     if (!vx::ctx().replay.empty()) {
+        arm();
+        auto& fs = w.fs;
+        for (auto& st : stages) for (auto& c : st.cfgs) { w.cfgs.push_back(c); w.cfgs.back().depth = 99; w.cfgs.back().alpha = &A_FULL; }
         std::ifstream f(vx::ctx().replay);
         std::string line, hist;
         while (std::getline(f, line)) if (line.rfind("history: ", 0) == 0) hist = line.substr(9);
@@ -404,35 +428,51 @@ int main(int argc, char** argv)
         return fs.sh->violations.load() ? 1 : 0;
     }
 
-    fs.run();
+    uint64_t outcome[16] = {0};
+    uint64_t n_cfg = 0;
+    std::string done;
+    int completed = 0;
+    for (auto& st : stages) {
+        if (vx::deadline_reached()) { E.exhaustive = false; break; }
+        arm();
+        w.cfgs = st.cfgs;
+        w.fs.run();
+        for (int i = 0; i < 16; i++) outcome[i] += w.fs.sh->outcome_classes[i].load();
+        if (w.fs.sh->deadline_hit.load()) { E.exhaustive = false; break; }
+        n_cfg += st.cfgs.size();
+        completed++;
+        done += "[" + std::to_string(st.cfgs.size()) + " configurations: " + st.name + "] ";
+    }
 
-    std::string alpha;
-    for (auto& a : w.alphabet) alpha += a + " ";
+    auto join = [](const std::vector<std::string>& v) { std::string s; for (auto& a : v) s += a + " "; return s; };
     E.rule = "explicit-state search of the real PeerManager (fork per transition). state = (peer configuration, message history) - histories are not merged because "
              "PeerManagerImpl's internals are not observable; transition = one handshake (first event) or one P2P message followed by ProcessMessages/SendMessages "
-             "rounds as the message-handler thread runs them; histories end when the node marks the peer for disconnection. configurations: 7 connection types x "
-             "permissions {none,noban,relay,forcerelay,download} x -blocksonly {0,1} x address {local,non-local} = 140; message alphabet: " + alpha;
+             "rounds as the message-handler thread runs them; histories end when the node marks the peer for disconnection. configuration space: 7 connection types x "
+             "permissions {none,noban,relay,forcerelay,download} x -blocksonly {0,1} x address {local,non-local} = 140, every configuration in exactly one stage. "
+             "stages completed: " + done;
     E.assume("regtest, in-memory LevelDBs, single-threaded node, synchronous validation signals, fixed mock time (no timeouts fire), one peer per history");
     E.assume("feeler connections receive the messages before their version message (the node disconnects a feeler itself when its version arrives)");
     E.assume("blocks/headers/cmpctblocks are deterministic functions of (current tip, kind); transactions are fixed spends of base-chain coinbases");
-    E.set_str("alphabet", alpha);
-    E.set("configurations", (uint64_t)w.cfgs.size());
+    E.set_str("alphabet_base", join(A_BASE));
+    if (big) E.set_str("alphabet_full", join(A_FULL));
+    E.set("configurations_completed", n_cfg);
+    E.set("stages_completed", (uint64_t)completed);
+    E.set("stages_planned", (uint64_t)stages.size());
     E.set("max_messages", (uint64_t)(big ? 3 : 2));
     E.sample("CFG:inbound:none:blocksonly=0:remote | tx:orphan | tx:valid  (orphan reconsidered and rejected, peer stays)");
     E.sample("CFG:outbound-full-relay:none:blocksonly=0:remote | block:badconnect  (disconnected + discouraged)");
     E.sample("CFG:inbound:none:blocksonly=0:local | headers:badpow  (disconnected, not discouraged)");
-    E.sample("CFG:manual:none:blocksonly=0:remote | block:mutated | block:badpow  (never punished)");
+    E.sample("CFG:manual:none:blocksonly=0:remote | block:mutated  (never punished)");
     static const char* names[] = {"tx_accepted", "tx_rejected_unpunished", "punished_discouraged", "punished_local_not_discouraged", "protected_spared",
                                   "tx_forbidden_disconnect", "blockchecked_consensus", "blockchecked_invalid_header", "valid_block_connected", "orphan_kept",
                                   "orphan_reconsidered_rejected", "cmpct_invalid_not_punished", "cmpct_badpow_punished", "noncontinuous_punished", "ignored_connection_msgs",
                                   "mutated_punished"};
     bool gate_ok = true;
     for (int i = 0; i < 16; i++) {
-        uint64_t v = fs.sh->outcome_classes[i].load();
-        E.set(std::string("outcome_") + names[i], v);
+        E.set(std::string("outcome_") + names[i], outcome[i]);
         bool required = i != O_CMPCT_INVALID_NOT_PUNISHED && i != O_CMPCT_BADPOW_PUNISHED && i != O_NONCONT_PUNISHED;
-        if (i == O_ORPHAN_RECONSIDERED && !getenv("C36_DEPTH")) required = true;
-        if (required && v == 0 && E.exhaustive) {
+        if (getenv("C36_DEPTH")) required = false;
+        if (required && outcome[i] == 0 && E.exhaustive) {
             printf("HARNESS-ERROR property=C36 outcome class '%s' never occurred: the exploration is vacuous for it\n", names[i]);
             gate_ok = false;
         }
